@@ -16,37 +16,54 @@ const depthDriverSrc = `package main
 import (
 	"fmt"
 
-	"scratch/progs"
 	"scratch/rt"
+	"scratch/terms"
+//IMPORTS
 )
 
+type It interface {
+	MoveNext() bool
+	Current() int
+}
 type In struct {
 	Idx     int    ` + "`json:\"idx\"`" + `
+	Prefix  []bool ` + "`json:\"prefix\"`" + `
 	Pattern []bool ` + "`json:\"pattern\"`" + `
 	Repeat  int    ` + "`json:\"repeat\"`" + `
+	Calls   int    ` + "`json:\"calls\"`" + `
 	All     bool   ` + "`json:\"all\"`" + `
 }
 type Out struct {
-	Ok      bool     ` + "`json:\"ok\"`" + `
 	Panic   string   ` + "`json:\"panic\"`" + `
-	Events  int      ` + "`json:\"events\"`" + `
-	Samples [][2]int ` + "`json:\"samples\"`" + `
+	Samples [][3]int ` + "`json:\"samples\"`" + `
 }
 
+var all = map[int]func(*rt.Rec) It{}
+
 func main() {
+	for i, t := range terms.All {
+		t := t
+		all[i] = func(r *rt.Rec) It { return t(r) }
+	}
+//REGISTER
 	serve(func(in In) (out Out) {
 		// the event budget ends loops that do not depend on the tape (panic "budget", as in the spec)
-		r := &rt.Rec{Pattern: in.Pattern, Repeat: in.Repeat, Quiet: true, Probe: true, Budget: in.Repeat*len(in.Pattern)*4 + 1000}
+		r := &rt.Rec{Tape: append([]bool{}, in.Prefix...), Pattern: in.Pattern, Repeat: in.Repeat, Quiet: true, Probe: true,
+			Budget: in.Repeat*len(in.Pattern)*4 + 1000}
 		rt.ProbeAll = in.All
-		it := progs.All[in.Idx](r)
+		it := all[in.Idx](r)
 		defer func() {
 			if p := recover(); p != nil {
 				out.Panic = fmt.Sprint(p)
 			}
-			out.Events = r.Reads
 			out.Samples = r.Samples
 		}()
-		out.Ok = it.MoveNext() // one advance: everything sampled lies between two yields
+		for c := 0; c < in.Calls; c++ {
+			r.ResetProbe() // everything sampled with the same advance number lies between two yields
+			if !it.MoveNext() {
+				break
+			}
+		}
 		return
 	})
 }
@@ -54,101 +71,119 @@ func main() {
 
 type depthJob struct {
 	Idx     int    `json:"idx"`
+	Prefix  []bool `json:"prefix"`
 	Pattern []bool `json:"pattern"`
 	Repeat  int    `json:"repeat"`
+	Calls   int    `json:"calls"`
 	All     bool   `json:"all"`
 }
 type depthOut struct {
-	Ok      bool     `json:"ok"`
 	Panic   string   `json:"panic"`
-	Events  int      `json:"events"`
-	Samples [][2]int `json:"samples"`
+	Samples [][3]int `json:"samples"`
+}
+
+// longStretch reports whether some advance of the model run performed at least 12
+// recorder events (a full pass over the 12 repetitions) -- i.e. a long stretch without yield.
+func longStretch(obs []any, key string) bool {
+	for _, o := range obs {
+		m := obj(o)
+		n := 0
+		if key == "reads" {
+			n = num(m["reads"])
+		} else {
+			n = len(arr(m["effs"]))
+		}
+		if n >= 12 {
+			return true
+		}
+	}
+	return false
 }
 
 // C17: stack use does not grow with the number of iterations between yields.
 func C17(c *vf.Check) {
-	reps := tier(c, 100000, 1000000)
+	reps := tier(c, 20000, 1000000)
 	const growthLimit = 1000 // frames; any implementation satisfying the property stays far below, one frame per iteration is far above
+	calls := 3
 
-	// (1) model: depth invariant of SeqMachine on all loop terms under periodic tapes
-	var tcases []struct {
+	// (1) model: depth invariant of SeqMachine on all loop terms under (prefix, pattern) tapes
+	type tcase struct {
 		Term any   `json:"term"`
+		Pre  any   `json:"pre"`
 		Tape any   `json:"tape"`
 		Obs  []any `json:"obs"`
-		Size int   `json:"size"`
 	}
-	res := c.S.RunTLC(vf.TLCRun{Module: "MC_Depth", Cfg: "MC_Depth.cfg", Consts: map[string]string{"MaxSize": tier(c, "3", "4")}, Timeout: 30 * time.Minute,
+	var tcases []tcase
+	res := c.S.RunTLC(vf.TLCRun{Module: "MC_Depth", Cfg: "MC_Depth.cfg", Consts: map[string]string{"MaxSize": tier(c, "3", "4")}, Timeout: 60 * time.Minute,
 		OnCase: func(raw []byte) {
-			var x struct {
-				Term any   `json:"term"`
-				Tape any   `json:"tape"`
-				Obs  []any `json:"obs"`
-				Size int   `json:"size"`
-			}
+			var x tcase
 			vf.Must(json.Unmarshal(raw, &x))
 			tcases = append(tcases, x)
 		}})
 	res.MustComplete("MC_Depth")
-	c.Note("TLC MC_Depth: %d states, %d (loop term, tape pattern) cases; invariant DepthBounded (maxd <= 6*size+6) holds on the model of the code at HEAD (%.0fs)", res.Distinct, res.Cases, res.Wall.Seconds())
+	c.Note("TLC MC_Depth: %d states, %d (loop term, prefix, pattern) cases; invariant DepthBounded (maxd <= 6*size+6) holds on the model of the code at HEAD (%.0fs)", res.Distinct, res.Cases, res.Wall.Seconds())
 
-	// (2) compiled generators: loop programs of F_ctl under periodic tapes
-	consts := map[string]string{"Family": `"ctl"`, "MaxSize": "2", "TapeLen": "3", "MaxCalls": "1", "Budget": "200", "OpenFlags": "{}", "Lazy": "FALSE", "TapeRep": "12"}
-	scases, sres := collectSrcCases(c, "MC_Src", "MC_Src.cfg", consts, 30*time.Minute)
-	c.Note("TLC MC_Src(ctl, periodic tapes): %d cases", sres.Cases)
-	// delegation depth: main = YieldFrom(D4(..)) from the delegation family
-	yconsts := map[string]string{"Family": `"yf"`, "MaxSize": "1", "TapeLen": "1", "MaxCalls": "1", "Budget": "60", "OpenFlags": "{}", "Lazy": "FALSE", "TapeRep": "0"}
+	// (2) compiled generators: loop programs under (prefix, pattern) tapes: control-flow family
+	// and delegation family (for-post YieldFrom of possibly empty delegates)
+	var scases []srcCase
+	var sstates, strans int64
+	for _, fam := range []string{"ctl", "yfl"} {
+		consts := map[string]string{"Family": `"` + fam + `"`, "MaxSize": "2", "TapeLen": "3", "MaxCalls": itoa(calls), "Budget": "200", "OpenFlags": "{}", "Lazy": "FALSE", "TapeRep": "12", "PrefixLen": "1"}
+		cs, sres := collectSrcCases(c, "MC_Src", "MC_Src.cfg", consts, 30*time.Minute)
+		scases = append(scases, cs...)
+		sstates += sres.Distinct
+		strans += sres.Generated
+		c.Note("TLC MC_Src(%s, prefix+periodic tapes): %d cases", fam, sres.Cases)
+	}
+	// delegation depth: main = YieldFrom(D4(..))
+	yconsts := map[string]string{"Family": `"yf"`, "MaxSize": "1", "TapeLen": "1", "MaxCalls": "1", "Budget": "60", "OpenFlags": "{}", "Lazy": "FALSE"}
 	ycases, _ := collectSrcCases(c, "MC_Src", "MC_Src.cfg", yconsts, 10*time.Minute)
 
-	// render everything into one module
 	dir := c.S.Sub("depth")
 	c.S.WriteModule(dir, "scratch")
 	writeFile(filepath.Join(dir, "rt", "rt.go"), rt.Source)
 	writeFile(filepath.Join(dir, "common.go"), drvCommon)
-	writeFile(filepath.Join(dir, "main.go"), depthDriverSrc)
 
 	type pcase struct {
 		what    string
+		prefix  []bool
 		pattern []bool
 		deleg   bool
 	}
 	var jobs []depthJob
 	var meta []pcase
-	var regs []string
-	// terms whose first advance ran through the whole periodic tape without yielding in the model
 	terms := newUniq()
 	for _, tc := range tcases {
-		if len(tc.Obs) == 0 {
-			continue
-		}
-		first := obj(tc.Obs[0])
-		pat := boolTape(tc.Tape)
-		if num(first["reads"]) < 12 { // the advance ended early (yield / exit): no long non-yielding stretch
+		if !longStretch(tc.Obs, "reads") {
 			continue
 		}
 		i := terms.add(tc.Term)
-		jobs = append(jobs, depthJob{Idx: i, Pattern: pat, Repeat: reps})
-		meta = append(meta, pcase{what: renderTerm(tc.Term), pattern: pat})
+		jobs = append(jobs, depthJob{Idx: i, Prefix: boolTape(tc.Pre), Pattern: boolTape(tc.Tape), Repeat: reps, Calls: calls})
+		meta = append(meta, pcase{what: renderTerm(tc.Term), prefix: boolTape(tc.Pre), pattern: boolTape(tc.Tape)})
 	}
 	var tb strings.Builder
-	tb.WriteString("package progs\n\nimport (\n\t\"github.com/goghcrow/go-co/seq\"\n\t\"scratch/rt\"\n)\n\ntype It interface {\n\tMoveNext() bool\n\tCurrent() int\n}\n\nvar All []func(*rt.Rec) It\n\n")
+	tb.WriteString("package terms\n\nimport (\n\t\"github.com/goghcrow/go-co/seq\"\n\t\"scratch/rt\"\n)\n\ntype It interface {\n\tMoveNext() bool\n\tCurrent() int\n}\n\nvar All = []func(*rt.Rec) It{\n")
+	for i := range terms.vals {
+		fmt.Fprintf(&tb, "\tT%d,\n", i)
+	}
+	tb.WriteString("}\n\nvar _ = seq.Normal[int]\n\n")
 	for i, t := range terms.vals {
 		fmt.Fprintf(&tb, "func T%d(r *rt.Rec) It {\n\tx := 0\n\t_ = x\n\treturn seq.Start[int](%s)\n}\n\n", i, renderTerm(t))
-		regs = append(regs, fmt.Sprintf("T%d", i))
 	}
+	writeFile(filepath.Join(dir, "terms", "terms.go"), tb.String())
 	nterms := len(terms.vals)
 
-	// compiled programs through the real compiler
 	progs := newUniq()
-	var sel []srcCase
 	for _, sc := range scases {
-		if len(sc.Ideal) == 0 || !usesKind(sc.Prog, "for") {
+		if !usesKind(sc.Prog, "for") || !longStretch(sc.Ideal, "effs") {
 			continue
 		}
-		first := obj(sc.Ideal[0])
-		if len(arr(first["effs"])) < 12 {
-			continue
-		}
-		sel = append(sel, sc)
+		tape := boolTape(sc.Tape)
+		plen := sc.PLen
+		per := (len(tape) - plen) / 12
+		i := progs.add(sc.Prog)
+		jobs = append(jobs, depthJob{Idx: nterms + i, Prefix: tape[:plen], Pattern: tape[plen : plen+per], Repeat: reps, Calls: calls})
+		meta = append(meta, pcase{what: strings.ReplaceAll(renderCo(sc.Prog), "\n", " "), prefix: tape[:plen], pattern: tape[plen : plen+per]})
 	}
 	var d4 []any
 	for _, sc := range ycases {
@@ -159,38 +194,37 @@ func C17(c *vf.Check) {
 	if d4 == nil {
 		vf.Machinery("delegation program YieldFrom(D4(r, a, b)) not found in the yf family")
 	}
-	cogen := buildCogen(c)
-	coR := &srcRenderer{md: coMode}
-	var src strings.Builder
-	src.WriteString("//go:build co\n\npackage progs\n\nimport (\n\t. \"github.com/goghcrow/go-co\"\n\t\"scratch/rt\"\n)\n\nvar _ = rt.Y\n\n")
-	src.WriteString(delegCo)
-	for _, sc := range sel {
-		i := progs.add(sc.Prog)
-		jobs = append(jobs, depthJob{Idx: nterms + i, Pattern: boolTape(sc.Tape)[:patLen(sc.Tape)], Repeat: reps})
-		meta = append(meta, pcase{what: strings.ReplaceAll(renderCo(sc.Prog), "\n", " "), pattern: boolTape(sc.Tape)[:patLen(sc.Tape)]})
-	}
 	di := progs.add(d4)
-	for i, p := range progs.vals {
-		src.WriteString(coR.genFunc(fmt.Sprintf("G%d", i), arr(p), "needed"))
-		src.WriteString("\n")
-		regs = append(regs, fmt.Sprintf("func(r *rt.Rec) It { return G%d(r, 0, 2) }", i))
-	}
 	depthLevels := tier(c, 50, 200)
-	jobs = append(jobs, depthJob{Idx: nterms + di, Pattern: []bool{true}, Repeat: depthLevels, All: true})
+	jobs = append(jobs, depthJob{Idx: nterms + di, Pattern: []bool{true}, Repeat: depthLevels, Calls: 1, All: true})
 	meta = append(meta, pcase{what: "recursive delegation YieldFrom(D4(..)) nested " + itoa(depthLevels) + " deep", deleg: true})
-	writeFile(filepath.Join(dir, "progs", "gens_co.go"), src.String())
-	tb.WriteString("func init() {\n\tAll = []func(*rt.Rec) It{\n")
-	for _, r := range regs {
-		tb.WriteString("\t\t" + r + ",\n")
+
+	coR := &srcRenderer{md: coMode}
+	hdr := func(pkg string) string {
+		return "//go:build co\n\npackage " + pkg + "\n\nimport (\n\t. \"github.com/goghcrow/go-co\"\n\t\"scratch/rt\"\n)\n\nvar _ = rt.Y\nvar _ Iter[int]\n\n"
 	}
-	tb.WriteString("\t}\n}\n")
-	writeFile(filepath.Join(dir, "progs", "terms.go"), tb.String())
-	if out, err := c.S.Run(dir, nil, "go", "build", "-tags", "co", "./progs/"); err != nil {
-		vf.Machinery("rendered sources do not build under -tags co:\n%s", vf.Trunc(out, 2000))
+	status, npk, runs := compileUnits(c, dir, unitSpec{N: len(progs.vals), PerPkg: 50, Hdr: hdr,
+		File: func(i int) string { return coR.genFunc(fmt.Sprintf("G%d", i), arr(progs.vals[i]), "needed") },
+		All: func(pkg string, live []int) string {
+			var b strings.Builder
+			b.WriteString("var All = map[int]func(*rt.Rec, int, int) Iter[int]{\n")
+			for _, i := range live {
+				fmt.Fprintf(&b, "\t%d: G%d,\n", i, i)
+			}
+			b.WriteString("}\n" + delegCo)
+			return b.String()
+		}})
+	for i, st := range status {
+		if st != "" {
+			c.Note("not measured (the compiler fails on it; C11's business): %s: %s", st, strings.ReplaceAll(renderCo(arr(progs.vals[i])), "\n", " "))
+		}
 	}
-	if out, err := c.S.Run(dir, nil, cogen, "gogen", filepath.Join(dir, "progs")); err != nil {
-		vf.Machinery("the compiler failed on the C17 loop programs (C11's business, fix first):\n%s", vf.Trunc(out, 2000))
+	var imp, reg strings.Builder
+	for pk := 0; pk < npk; pk++ {
+		fmt.Fprintf(&imp, "\tgen%03d \"scratch/gen%03d\"\n", pk, pk)
+		fmt.Fprintf(&reg, "\tfor k, v := range gen%03d.All {\n\t\tv := v\n\t\tall[%d+k] = func(r *rt.Rec) It { return v(r, 0, 2) }\n\t}\n", pk, nterms)
 	}
+	writeFile(filepath.Join(dir, "main.go"), strings.Replace(strings.Replace(depthDriverSrc, "//IMPORTS\n", imp.String(), 1), "//REGISTER\n", reg.String(), 1))
 	if out, err := c.S.Run(dir, nil, "go", "build", "-o", "driver", "."); err != nil {
 		vf.Machinery("building the depth driver failed:\n%s", vf.Trunc(out, 3000))
 	}
@@ -198,9 +232,12 @@ func C17(c *vf.Check) {
 	nontrivial := 0
 	for i, r := range results {
 		m := meta[i]
+		if jobs[i].Idx >= nterms && status[jobs[i].Idx-nterms] != "" {
+			continue
+		}
 		if r.Status != "ok" {
-			c.Violation(J{"case": m.what, "pattern": m.pattern, "repeat": jobs[i].Repeat, "status": r.Status, "detail": r.Crash},
-				fmt.Sprintf("%s with tape pattern %v x %d: the advance did not finish (%s) %s", m.what, m.pattern, jobs[i].Repeat, r.Status, vf.Trunc(firstLine(r.Crash), 200)))
+			c.Violation(J{"case": m.what, "prefix": m.prefix, "pattern": m.pattern, "repeat": jobs[i].Repeat, "status": r.Status, "detail": r.Crash},
+				fmt.Sprintf("%s with tape %v + %v x %d: the advance did not finish (%s) %s", m.what, m.prefix, m.pattern, jobs[i].Repeat, r.Status, vf.Trunc(firstLine(r.Crash), 200)))
 			continue
 		}
 		var o depthOut
@@ -210,10 +247,10 @@ func C17(c *vf.Check) {
 			if len(o.Samples) < depthLevels {
 				vf.Machinery("delegation run produced %d samples, expected >= %d", len(o.Samples), depthLevels)
 			}
-			inc0 := o.Samples[2][1] - o.Samples[1][1]
+			inc0 := o.Samples[2][2] - o.Samples[1][2]
 			worst := 0
 			for k := 2; k < len(o.Samples); k++ {
-				if d := o.Samples[k][1] - o.Samples[k-1][1]; d > worst {
+				if d := o.Samples[k][2] - o.Samples[k-1][2]; d > worst {
 					worst = d
 				}
 			}
@@ -224,33 +261,40 @@ func C17(c *vf.Check) {
 			nontrivial++
 			continue
 		}
-		if len(o.Samples) < 3 {
-			continue // fewer than 100 events in the advance: not a long stretch
+		// per advance: growth between the first sample (event 10) and the last one
+		byAdv := map[int][][3]int{}
+		for _, s := range o.Samples {
+			byAdv[s[0]] = append(byAdv[s[0]], s)
 		}
-		nontrivial++
-		base := o.Samples[0][1] // at event 10
-		last := o.Samples[len(o.Samples)-1]
-		if last[1]-base > growthLimit {
-			c.Violation(J{"case": m.what, "pattern": m.pattern, "repeat": jobs[i].Repeat, "samples": o.Samples},
-				fmt.Sprintf("%s\n  tape pattern %v x %d: call depth grows with the number of non-yielding iterations: %v (event number, frames)", m.what, m.pattern, jobs[i].Repeat, o.Samples))
-		} else if nontrivial%40 == 1 {
-			c.Sample(J{"case": m.what, "pattern": m.pattern, "repeat": jobs[i].Repeat, "depth_samples": o.Samples})
+		long := false
+		for adv, ss := range byAdv {
+			if len(ss) < 3 { // fewer than 1000 events in this advance: not a long stretch
+				continue
+			}
+			long = true
+			if ss[len(ss)-1][2]-ss[0][2] > growthLimit {
+				c.Violation(J{"case": m.what, "prefix": m.prefix, "pattern": m.pattern, "repeat": jobs[i].Repeat, "advance": adv, "samples": ss},
+					fmt.Sprintf("%s\n  tape %v + %v x %d, advance %d: call depth grows with the number of non-yielding iterations: %v (advance, event number, frames)", m.what, m.prefix, m.pattern, jobs[i].Repeat, adv, ss))
+				break
+			}
+		}
+		if long {
+			nontrivial++
+			if nontrivial%97 == 1 {
+				c.Sample(J{"case": m.what, "prefix": m.prefix, "pattern": m.pattern, "repeat": jobs[i].Repeat, "depth_samples": o.Samples})
+			}
 		}
 	}
-	c.Cov["states"] = res.Distinct + sres.Distinct
-	c.Cov["transitions"] = res.Generated + sres.Generated
+	c.Cov["states"] = res.Distinct + sstates
+	c.Cov["transitions"] = res.Generated + strans
 	c.Cov["traces_validated_against_impl"] = int64(len(jobs))
 	c.Cov["evaluations"] = int64(len(jobs))
 	c.Cov["distinct_nontrivial"] = int64(nontrivial)
 	c.Cov["programs"] = int64(nterms + len(progs.vals))
-	c.Cov["rule"] = fmt.Sprintf("every loop term of T_term (size<=MaxSize) and every loop program of F_ctl (size<=2) x every tape pattern of <=3 bits for which the model's first advance runs through 12 repetitions without yielding; replayed on the real runtime / compiled code with the pattern repeated %d times, call depth (runtime.Callers) sampled at recorder events 10,100,1000,..; growth beyond event 10 must stay below %d frames; plus recursive delegation %d levels deep with constant depth increment per level; non-trivial = advance with >= 100 events", reps, growthLimit, depthLevels)
+	c.Cov["compiler_runs"] = int64(runs)
+	c.Cov["rule"] = fmt.Sprintf("every loop term of T_term (size<=MaxSize) and every loop program of F_ctl and F_yfl (size<=2, incl. for-post YieldFrom of possibly empty, non-recursive delegates) x every (prefix<=1 bit, pattern<=3 bits) tape for which some advance of the model run passes 12 repetitions without yielding; replayed on the real runtime / compiled code with the pattern repeated %d times over 3 advances, call depth (runtime.Callers) sampled at recorder events 10,100,1000,.. of EVERY advance; growth within an advance must stay below %d frames; plus recursive delegation %d levels deep with constant depth increment per level; non-trivial = run with an advance of >= 1000 events", reps, growthLimit, depthLevels)
 	c.Assumptions = append(c.Assumptions, "real stack frames are measured by the harness (runtime.Callers), TLA+ only states the abstract bound (depth of CPS activations) and selects the cases",
-		"threshold 1000 frames: generous so that any implementation satisfying the property passes; growth of one frame per iteration is caught at 10^5 iterations")
-}
-
-func patLen(tape any) int {
-	// periodic tapes are emitted as pattern^12
-	return len(arr(tape)) / 12
+		"threshold 1000 frames: generous so that any implementation satisfying the property passes; growth of one frame per iteration is caught after 2*10^4 iterations (quick) already")
 }
 
 func firstLine(s string) string {
